@@ -3,23 +3,31 @@
 A `Recorder` numbers the *model-level* effects of one call of the implementation
 (one run of run_federated_experiment, one call of maybe_download, ...).  Effect k
 (0-based) is either performed and appended to `trace`, or -- when `crash_at == k`
--- NOT performed (a write is performed partially: a prefix of the data reaches the
-disk) and `SimCrash` is raised.  After the crash the recorder is `dead`: the
-simulated process no longer exists, so every later effect attempted by clean-up
-code (`with` blocks, `finally`) is refused.  A crashed call therefore leaves on
-disk exactly the result of the first k effects, plus a torn file when the crash
-hit inside a write.
+-- NOT performed and `SimCrash` is raised.  After the crash the recorder is `dead`:
+the simulated process no longer exists, so every later effect attempted by clean-up
+code (`with` blocks, `finally`) is refused.
+
+Buffering is adversarial: bytes written through a `RecFile` reach the real file only
+when the code under test flushes or closes it.  When the process dies (or a close
+fails with an I/O error) while a file is open, only a PREFIX CLASS `cls` of the bytes
+not yet flushed reaches the disk: 0 none, 1 half, 2 all but one byte.  So a file that
+was opened for writing and not yet closed is torn whatever name it has at that moment
+-- in particular when it was renamed before being closed.
 
 Consecutive `write` calls on one open file are ONE model-level effect (how many
 `write` calls an implementation uses to produce a file is not part of any
-property); `sub` selects which of the raw write calls of the group crashes and
-`cls` the prefix class that reaches the disk: 0 empty, 1 half, 2 all but one
-byte.  If the group has fewer than sub+1 raw writes the crash happens at the
-`close` of the file (all bytes on disk, file never closed).
+property); `sub` selects which of the raw write calls of the group crashes (the data
+of that call counts as not yet flushed).  If the group has fewer than sub+1 raw
+writes the crash happens at the `close` of the file.
+
+`close_error = cls` makes the close of every file opened for writing fail with
+OSError(EFBIG) (a full disk / quota on the final flush) after the prefix class `cls`
+of the pending bytes was written; it is the model-level effect ('clerr', name).
 
 `SimCrash` derives from BaseException so that `except Exception` in the code
 under test cannot swallow it.
 """
+import errno
 import os
 
 
@@ -29,15 +37,17 @@ class SimCrash(BaseException):
 
 class Recorder:
 
-  def __init__(self, crash_at=None, sub=0, cls=0):
+  def __init__(self, crash_at=None, sub=0, cls=0, close_error=None):
     self.trace = []          # model-level effects performed (tuples)
     self.raw_writes = {}     # model index of a write group -> number of raw write calls
     self.crash_at = crash_at
     self.sub = sub
     self.cls = cls
+    self.close_error = close_error
     self.dead = False
     self.crashed = False
-    self._open_group = None  # (file object id) of the write group that is still open
+    self.open_files = []     # RecFiles opened and not yet closed
+    self._open_group = None  # (file object, model index) of the write group that is still open
 
   # -- generic effect -------------------------------------------------------
   def effect(self, ev):
@@ -53,37 +63,32 @@ class Recorder:
   def die(self):
     self.dead = True
     self.crashed = True
+    for f in list(self.open_files):
+      f.on_death(self.cls)
     raise SimCrash()
 
   # -- write groups ---------------------------------------------------------
   def write(self, fobj, name, data, do_write):
-    """A raw write of `data` to open file `fobj` (`do_write(prefix)` puts bytes on
-    the disk and flushes them)."""
+    """A raw write of `data` to open file `fobj` (`do_write(data)` buffers it)."""
     if self.dead:
       raise SimCrash()
     if self._open_group is not None and self._open_group[0] is fobj:
       idx = self._open_group[1]
-    else:
-      idx = len(self.trace)
-      if self.crash_at is not None and idx == self.crash_at and self.sub == 0:
-        self._torn(data, do_write)
-      self.trace.append(('wr', name))
-      self._open_group = (fobj, idx)
-      self.raw_writes[idx] = 1
+      nth = self.raw_writes[idx]
+      self.raw_writes[idx] = nth + 1
+      if self.crash_at is not None and idx == self.crash_at and self.sub == nth:
+        do_write(data)
+        self.die()
       do_write(data)
       return
-    nth = self.raw_writes[idx]
-    self.raw_writes[idx] = nth + 1
-    if self.crash_at is not None and idx == self.crash_at and self.sub == nth:
-      self._torn(data, do_write)
+    idx = len(self.trace)
+    if self.crash_at is not None and idx == self.crash_at and self.sub == 0:
+      do_write(data)
+      self.die()
+    self.trace.append(('wr', name))
+    self._open_group = (fobj, idx)
+    self.raw_writes[idx] = 1
     do_write(data)
-
-  def _torn(self, data, do_write):
-    n = len(data)
-    k = 0 if self.cls == 0 else n // 2 if self.cls == 1 else max(n - 1, 0)
-    if k:
-      do_write(data[:k])
-    self.die()
 
   def closing(self, fobj, name, content):
     """Close of a file opened for writing: one model-level effect."""
@@ -94,8 +99,15 @@ class Recorder:
         self.sub >= self.raw_writes[grp[1]]):
       # the requested raw write does not exist: crash before the close instead
       self.die()
+    if self.close_error is not None:
+      self.effect(('clerr', name))
+      return False
     self.effect(('cl', name, content))
     return True
+
+
+def _prefix_len(n, cls):
+  return 0 if cls == 0 else n // 2 if cls == 1 else max(n - 1, 0)
 
 
 class RecFile:
@@ -108,31 +120,49 @@ class RecFile:
     self._f = opener()
     if empty is not None:   # lazily creating file APIs (tf GFile): the file exists (empty) from the open on
       self._f.write(empty)
-    self._flush()
-    self._buf = []
-    self._closed = False
-
-  def _flush(self):
     self._f.flush()
+    self._buf = []          # everything written
+    self._pending = []      # written, not yet flushed to the real file
+    self._closed = False
+    rec.open_files.append(self)
 
-  def _put(self, data):
-    self._f.write(data)
+  def _join(self, parts):
+    whole = parts[0][:0] if parts else b''
+    for part in parts:
+      whole = whole + part
+    return whole
+
+  def _push(self, upto=None):
+    """Moves the pending bytes (or their first `upto`) to the real file."""
+    data = self._join(self._pending)
+    if upto is not None:
+      data = data[:upto]
+    self._pending = []
+    if len(data):
+      self._f.write(data)
     self._f.flush()
 
   def write(self, data):
     def do_write(part):
-      self._put(part)
+      self._pending.append(part)
       self._buf.append(part)
-    try:
-      self._rec.write(self, self._name, data, do_write)
-    except SimCrash:
-      self._abandon()
-      raise
+    self._rec.write(self, self._name, data, do_write)
     return len(data)
+
+  def on_death(self, cls):
+    """The process dies while this file is open: a prefix class of the unflushed bytes survives."""
+    if self._closed:
+      return
+    try:
+      self._push(_prefix_len(sum(len(p) for p in self._pending), cls))
+    finally:
+      self._abandon()
 
   def _abandon(self):
     if not self._closed:
       self._closed = True
+      if self in self._rec.open_files:
+        self._rec.open_files.remove(self)
       try:
         self._f.close()
       except Exception:  # pylint: disable=broad-except
@@ -140,7 +170,7 @@ class RecFile:
 
   def flush(self):
     if not self._rec.dead and not self._closed:
-      self._flush()
+      self._push()
 
   def close(self):
     if self._closed:
@@ -148,16 +178,15 @@ class RecFile:
     if self._rec.dead:
       self._abandon()
       return
-    whole = self._buf[0][:0] if self._buf else b''
-    for part in self._buf:
-      whole = whole + part
-    try:
-      self._rec.closing(self, self._name, self._decode(self._name, whole))
-    except SimCrash:
+    ok = self._rec.closing(self, self._name, self._decode(self._name, self._join(self._buf)))
+    if self._closed:        # the recorder died in closing()
+      return
+    if not ok and self._rec.close_error is not None:
+      self._push(_prefix_len(sum(len(p) for p in self._pending), self._rec.close_error))
       self._abandon()
-      raise
-    self._closed = True
-    self._f.close()
+      raise OSError(errno.EFBIG, 'File too large (injected on the final flush)')
+    self._push()
+    self._abandon()
 
   def __enter__(self):
     return self
